@@ -235,6 +235,8 @@ pub struct FaultCfg {
     pub forced_nth: Option<(u64, Fate)>,
     /// the same for several datagrams of the data phase (positions ascending)
     pub forced_list: Vec<(u64, Fate)>,
+    /// no random faults after this much virtual time (a later, fault-free phase of the run)
+    pub until_ns: Option<Ns>,
 }
 
 impl Default for FaultCfg {
@@ -257,6 +259,7 @@ impl Default for FaultCfg {
             forced: Vec::new(),
             forced_nth: None,
             forced_list: Vec::new(),
+            until_ns: None,
         }
     }
 }
@@ -465,6 +468,11 @@ impl Inner {
     fn faults_allowed(&self) -> bool {
         if self.budget_left == 0 || (self.cfg.after_first_data && !self.data_phase) {
             return false;
+        }
+        if let Some(u) = self.cfg.until_ns {
+            if self.now.saturating_sub(BOOT_NS) > u {
+                return false;
+            }
         }
         match self.wrap_gate {
             None => true,
